@@ -252,6 +252,15 @@ func replay(t *testing.T, p *Prop, path, tier string) {
 	if rf.SeedOnly {
 		tape = zsim.NewTape(rf.RunSeed)
 	}
+	if out := os.Getenv("ZSIM_TAPEOUT"); out != "" {
+		// the choices this execution consumed, written even if the testing
+		// package ends the test early after a race report (minimisation of race
+		// violations runs one process per candidate tape)
+		defer func() {
+			b, _ := json.Marshal(tape.Data())
+			os.WriteFile(out, b, 0o644)
+		}()
+	}
 	res := ExecOne(t, p, tape, tier)
 	viol := res.Viol
 	if zsim.RaceBuild && viol == nil {
